@@ -55,7 +55,11 @@ func (st *Transfer) Do(crd *rsyncwire.CountingReader, cwr *rsyncwire.CountingWri
 	// Sort the file list. The client sorts, so we need to sort, too (in the
 	// same way!), otherwise our indices do not match what the client will
 	// request.
-	sort.Slice(fileList.Files, func(i, j int) bool {
+	// The sort must be stable: when several source arguments yield the same
+	// name, the receiver (which sorts the list it received, see
+	// rsync/flist.c:flist_sort_and_clean) keeps equal names in wire order,
+	// and a request by index must refer to the same entry on both sides.
+	sort.SliceStable(fileList.Files, func(i, j int) bool {
 		return fileList.Files[i].Wpath < fileList.Files[j].Wpath
 	})
 
